@@ -68,3 +68,15 @@ pub proof fn lemma_div_bound(n: nat, d: nat) requires d > 0 ensures n / d <= n
     lemma_div_is_ordered_by_denominator(n as int, 1, d as int);
     lemma_div_basics(n as int);
 }
+pub proof fn lemma_ratio_le_one(a: nat, s: nat)
+    requires s > 0, a <= s
+    ensures a * DEC / s <= DEC, a * DEC / s < POW128,
+            forall|b: nat| b < POW128 ==> #[trigger] ((a * DEC / s) * b) / DEC <= b
+{
+    lemma_muldiv_le(DEC, a, s);
+    assert(a * DEC == DEC * a) by(nonlinear_arith);
+    assert forall|b: nat| b < POW128 implies #[trigger] ((a * DEC / s) * b) / DEC <= b by {
+        lemma_muldiv_le(b, a * DEC / s, DEC);
+        assert(b * (a * DEC / s) == (a * DEC / s) * b) by(nonlinear_arith);
+    }
+}
